@@ -149,8 +149,10 @@ type mergeProcessor struct {
 	// docIDs contains all docIDs that have been merged so far by the mergeProcessor
 	docIDs map[string]struct{}
 
-	// composites is a list of composites that need to be merged.
+	// composites is a list of composites that need to be merged, ancestors first.
 	composites *list.List
+	// visited contains the composites that have already been queued for merging.
+	visited map[cid.Cid]struct{}
 	// missingEncryptionBlocks is a list of blocks that we failed to fetch
 	missingEncryptionBlocks map[cidlink.Link]struct{}
 	// availableEncryptionBlocks is a list of blocks that we have successfully fetched
@@ -175,6 +177,7 @@ func (db *DB) newMergeProcessor(
 		col:                       col,
 		docIDs:                    make(map[string]struct{}),
 		composites:                list.New(),
+		visited:                   make(map[cid.Cid]struct{}),
 		missingEncryptionBlocks:   make(map[cidlink.Link]struct{}),
 		availableEncryptionBlocks: make(map[cidlink.Link]*coreblock.Encryption),
 	}, nil
@@ -191,6 +194,14 @@ func newMergeTarget() mergeTarget {
 	}
 }
 
+// add adds a block to the merge target. The height of the target is the greatest height among its blocks.
+func (mt *mergeTarget) add(c cid.Cid, block *coreblock.Block) {
+	mt.heads[c] = block
+	if block.Delta.GetPriority() > mt.headHeight {
+		mt.headHeight = block.Delta.GetPriority()
+	}
+}
+
 // loadComposites retrieves and stores into the merge processor the composite blocks for the given
 // CID until it reaches a block that has already been merged or until we reach the genesis block.
 func (mp *mergeProcessor) loadComposites(
@@ -200,6 +211,10 @@ func (mp *mergeProcessor) loadComposites(
 ) error {
 	if _, ok := mt.heads[blockCid]; ok {
 		// We've already processed this block.
+		return nil
+	}
+	if _, ok := mp.visited[blockCid]; ok {
+		// We've already queued this block via another path of the DAG.
 		return nil
 	}
 
@@ -217,16 +232,25 @@ func (mp *mergeProcessor) loadComposites(
 	// of the composite DAG. However, the new block and its children might have branched off from an older block.
 	// In this case, we also need to walk back the merge target's DAG until we reach a common block.
 	if block.Delta.GetPriority() >= mt.headHeight {
-		mp.composites.PushFront(block)
+		// The block is not below the merge target and is not part of it: it has not been merged yet.
+		// Its ancestors are queued before it, each of them once.
+		mp.visited[blockCid] = struct{}{}
 		for _, head := range block.Heads {
 			err := mp.loadComposites(ctx, head.Cid, mt)
 			if err != nil {
 				return err
 			}
 		}
+		mp.composites.PushBack(block)
 	} else {
+		// Walk back only the part of the merge target that is above the block. The blocks at or below
+		// the height of the block are kept, otherwise an already merged block could be taken for a new one.
 		newMT := newMergeTarget()
-		for _, b := range mt.heads {
+		for c, b := range mt.heads {
+			if b.Delta.GetPriority() <= block.Delta.GetPriority() {
+				newMT.add(c, b)
+				continue
+			}
 			for _, link := range b.Heads {
 				nd, err := mp.blockLS.Load(linking.LinkContext{Ctx: ctx}, link, coreblock.BlockSchemaPrototype)
 				if err != nil {
@@ -238,8 +262,7 @@ func (mp *mergeProcessor) loadComposites(
 					return err
 				}
 
-				newMT.heads[link.Cid] = childBlock
-				newMT.headHeight = childBlock.Delta.GetPriority()
+				newMT.add(link.Cid, childBlock)
 			}
 		}
 		return mp.loadComposites(ctx, blockCid, newMT)
@@ -543,9 +566,8 @@ func getHeadsAsMergeTarget(ctx context.Context, key keys.HeadstoreKey) (mergeTar
 			return mergeTarget{}, err
 		}
 
-		mt.heads[cid] = block
-		// All heads have the same height so overwriting is ok.
-		mt.headHeight = block.Delta.GetPriority()
+		// Heads may sit at different heights.
+		mt.add(cid, block)
 	}
 	return mt, nil
 }
